@@ -49,6 +49,10 @@ pub enum Raw {
     Delay { ns: u64 },
     /// a direct Interface call on `RecIface`
     Iface { what: &'static str, t: u64, ok: bool },
+    /// pixel words handed to `RecIface::send_pixels` (one entry per pixel)
+    IfacePix { words: Vec<u16> },
+    /// `RecIface::send_repeated_pixel`
+    IfaceRepeat { pixel: Vec<u16>, count: u32 },
 }
 
 pub struct World {
@@ -90,6 +94,11 @@ pub struct World {
     pub spi_transactions: u64,
     /// number of words that reached the controller
     pub bus_words: u64,
+    /// every word as latched by the controller: (D/C level, word) - only when `latch_on`
+    pub latch_on: bool,
+    pub latch_log: Vec<(bool, u16)>,
+    /// one-shot: the next write to this data pin fails (C07 b)
+    pub fail_data_pin: Option<u8>,
 }
 
 pub type W = Rc<RefCell<World>>;
@@ -122,6 +131,9 @@ impl World {
             bus_while_reset: 0,
             spi_transactions: 0,
             bus_words: 0,
+            latch_on: false,
+            latch_log: Vec::new(),
+            fail_data_pin: None,
         }))
     }
 
@@ -158,6 +170,9 @@ impl World {
     /// one word as the controller latches it
     fn feed(&mut self, is_cmd: bool, word: u16) {
         self.note_bus();
+        if self.latch_on {
+            self.latch_log.push((!is_cmd, word));
+        }
         if is_cmd {
             self.finish_cmd();
             if word > 0xff {
@@ -204,7 +219,13 @@ impl World {
     }
 
     fn set_pin(&mut self, src: Src, level: bool) -> Result<(), Fault> {
-        let r = self.op(src);
+        let mut r = self.op(src);
+        if let (Src::Data(i), Some(f)) = (src, self.fail_data_pin) {
+            if i == f && r.is_ok() {
+                self.fail_data_pin = None;
+                r = Err(Fault { src, budget: false });
+            }
+        }
         if self.raw_on {
             let t = self.now_ns;
             self.raw.push(Raw::Pin {
@@ -502,9 +523,14 @@ impl<Wd: BusWord, K: KindMarker> Interface for RecIface<Wd, K> {
         }
         // the iterator is driven without the world borrowed: it may call back into our doubles
         let mut buf: Vec<u16> = Vec::with_capacity(256);
+        let raw_on = self.w.borrow().raw_on;
         for px in pixels {
             for x in px {
                 buf.push(x.to_u16());
+            }
+            if raw_on {
+                let words: Vec<u16> = px.iter().map(|x| x.to_u16()).collect();
+                self.w.borrow_mut().raw.push(Raw::IfacePix { words });
             }
             if buf.len() >= 240 {
                 let mut w = self.w.borrow_mut();
@@ -537,6 +563,9 @@ impl<Wd: BusWord, K: KindMarker> Interface for RecIface<Wd, K> {
         let mut p = [0u16; 8];
         for (i, x) in pixel.iter().enumerate() {
             p[i] = x.to_u16();
+        }
+        if w.raw_on {
+            w.raw.push(Raw::IfaceRepeat { pixel: p[..N].to_vec(), count });
         }
         w.panel.repeat(&p[..N], count as u64);
         Ok(())
